@@ -32,7 +32,7 @@ type httpReply struct {
 // peer is a peer returned by a tracker.
 type peer struct {
 	IP   string `bencode:"ip"`
-	Port uint16 `bencode:"port"`
+	Port int    `bencode:"port"`
 }
 
 // Announce performs an HTTP announce over both IPv4 and IPv6 in parallel.
@@ -183,8 +183,8 @@ func announceHTTP(ctx context.Context, protocol string, tracker *HTTP,
 		if err == nil {
 			for _, p := range peers {
 				ip, err := netip.ParseAddr(p.IP)
-				if err == nil {
-					f(netip.AddrPortFrom(ip, p.Port))
+				if err == nil && p.Port >= 0 && p.Port <= 0xFFFF {
+					f(netip.AddrPortFrom(ip, uint16(p.Port)))
 				}
 			}
 		}
